@@ -103,8 +103,10 @@ def propsOfFact (f : String) : String :=
 /-! ### monitors on transitions -/
 
 /-- C06: what must hold after an accepted purchase -/
-def monPurchaseAccepted (pre post : State) (poolID : Nat) (amt : Int) (user : Bool) : List String :=
-  let free := post.totalCollateral - post.totalWithdrawing - post.totalClaimed
+def monPurchaseAccepted (pre post : State) (poolID : Nat) (amt : Int) (user : Bool) (lockedByOpenClaims : Int := 0) : List String :=
+  -- what open claims lock is recomputed from the claim proposals themselves (the sum of the losses of the claims still being
+  -- voted on), not only read from the module's own record: a record released twice would otherwise widen the limit unseen
+  let free := post.totalCollateral - post.totalWithdrawing - max post.totalClaimed lockedByOpenClaims
   let c (b : Bool) (m : String) : List String := if b then [] else [m]
   c (post.totalShield ≤ free) s!"oversold: total shield {post.totalShield} > free collateral {free}" ++
   (match findPool post poolID, findPool pre poolID with
